@@ -349,3 +349,34 @@ def no_equation_is_lost_before_solving(ctx):
     got, want = SB.agree(f.node, REFS[a])
     ctx.stats['terms_compared'] += len(got)
     ctx.check(got == want, '_prepare_sympy', 'every well-formed equation is kept, in order', '_prepare_sympy differs from its confirmed behaviour: %s' % SB.diff(got, want)[:600], f, f.node)
+
+
+@rule('C12.j', min_instances=3)
+def markers_are_restored_longest_first(ctx):
+    """solve and its helpers rename named variables to the markers _0, _1, ... and rename them back in a nested restore(); the markers are replaced textually, so _10 has to be restored before _1 (as replace_variables substitutes in descending order on the way in): every restore loop runs over the markers in descending index order, not in order of appearance"""
+    m = ctx.model.modules['mystic._symbolic']
+    fs = [fi for q, fi in sorted(m.funcs.items()) if fi.name == 'restore' and fi.parent is not None]
+    ctx.need(len(fs) >= 3, 'expected >= 3 nested restore() helpers in _symbolic, found %d' % len(fs))
+    for fi in fs:
+        ctx.touch(fi)
+        loops = [n for n in walk_no_nested(fi.node) if isinstance(n, ast.For)]
+        ctx.need(loops, '%s: replacement loop not found' % fi.qualname)
+        lp = loops[0]
+        reps = calls_where(lp, lambda c: isinstance(c.func, ast.Attribute) and c.func.attr == 'replace', include_lambda=False)
+        ctx.need(reps, '%s: no textual replacement in the loop' % fi.qualname)
+        it = T.simp(T.term(lp.iter))
+        shown = T.show(it)
+        # accepted: sorted(..., key=<decreasing in the index>) / sorted(..., reverse=True) / argsort(...)[::-1]
+        descending = False
+        if it[0] == 'call' and T.show(it[1]) == 'sorted':
+            kws = dict(it[3])
+            keyf = kws.get('key')
+            rev = kws.get('reverse') == ('const', True)
+            neg_key = keyf is not None and keyf[0] == 'lambda' and T.is_poly(keyf[3]) and any(c < 0 for mono, c in keyf[3][1]) and 'indices' in T.show(keyf[3])
+            pos_key = keyf is not None and 'indices' in T.show(keyf) and not neg_key
+            descending = neg_key or (rev and pos_key) or (rev and keyf is None and 'indices' in shown)
+        elif 'argsort' in shown and shown.rstrip(')').endswith('[::-1]'):
+            descending = True
+        ctx.check(descending, '%s#order' % fi.qualname.replace('.restore', '') + '.restore', 'markers restored in descending index order',
+                  '%s restores the markers in the order %s: when _1 comes before _10 the text of _10 has already been rewritten (11 or more named variables give a wrong solved form)'
+                  % (fi.qualname, shown[:70]), fi, lp)
